@@ -15,30 +15,36 @@ From Coq Require Import ZArith String.
    state-passing function, so "same user code, same order, same states" is part
    of the equation), every normaliser: compile_quote's form evaluates to the
    reference.  wf excludes what C30 excludes (a Complex literal with imaginary part -0.0). *)
-Theorem C31_quasiquote_correct :
+Definition C31_full : Prop :=
+  forall (St : Type) (user : model -> St -> res value * St) (norm : text -> text) t st,
+    wf_ctor t = true -> qq_valid norm 0 t = true ->
+    run_quote St user norm false t st = qq_ref St user norm 0 t st.
+
+(* Proved with wf in place of wf_ctor; the difference is refuted below (C31_complex_negzero_refuted). *)
+Theorem C31_quasiquote_correct_partial :
   forall (St : Type) (user : model -> St -> res value * St) (norm : text -> text) t st,
     wf t = true -> qq_valid norm 0 t = true ->
     run_quote St user norm false t st = qq_ref St user norm 0 t st.
 Proof. exact quasiquote_run. Qed.
-Print Assumptions C31_quasiquote_correct.
+Print Assumptions C31_quasiquote_correct_partial.
 
 (* The same at every depth d (what render_quoted_form returns inside d nested quasiquotes). *)
-Theorem C31_quasiquote_correct_any_depth :
+Theorem C31_quasiquote_correct_any_depth_partial :
   forall (St : Type) (user : model -> St -> res value * St) (norm : text -> text) t d,
     wf t = true -> qq_valid norm d t = true ->
     exists f sp, render norm (LNat d) t = Ok (f, sp) /\ forall st, eval St user f st = qq_ref St user norm d t st.
 Proof. exact quasiquote_correct. Qed.
-Print Assumptions C31_quasiquote_correct_any_depth.
+Print Assumptions C31_quasiquote_correct_any_depth_partial.
 
 (* With promotion, as the property words it: if the quasiquote evaluates to v and hy.as_model
    accepts v, the promoted result is the reference in which each inserted value is promoted. *)
-Theorem C31_quasiquote_promoted :
+Theorem C31_quasiquote_promoted_partial :
   forall (St : Type) (user : model -> St -> res value * St) (norm : text -> text) t st st' v v',
     wf t = true -> qq_valid norm 0 t = true ->
     run_quote St user norm false t st = (Ok v, st') -> as_model v = Ok v' ->
     qq_ref_p St user norm 0 t st = (Ok v', st').
 Proof. exact quasiquote_promoted. Qed.
-Print Assumptions C31_quasiquote_promoted.
+Print Assumptions C31_quasiquote_promoted_partial.
 
 (* unquote_arity_error_class: a template with a wrong-arity unquote (or a splice of an
    unpack-iterable form) is refused with a compile-time error and no user code runs. *)
